@@ -219,6 +219,10 @@ type Options struct {
 	// AutoExtend extends every DI voucher to Owner (AllInOne); the manufacturer store then holds
 	// the extended voucher.
 	AutoExtend bool
+	// AIO wires the library's fdo.AllInOne into DI: BeforeVoucherPersist = AllInOne.Extend (voucher
+	// extended to the owner service's key) and AfterVoucherPersist = AllInOne.RegisterOwnerAddr
+	// (rendezvous blob registered without TO0). Meant for a single database (Separate = false).
+	AIO bool
 	// OwnerModules builds the owner module list for a TO2 session.
 	OwnerModules func(ctx context.Context, tok string, devmod serviceinfo.Devmod, supported []string) []NamedOwnerModule
 	// TTLPolicy is TO0Server.AcceptVoucher (nil: accept with requested ttl).
@@ -330,6 +334,11 @@ func (w *World) buildServers() {
 			return nil
 		}
 	}
+	if opt.AIO {
+		aio := fdo.AllInOne{DIAndOwner: aioKeys{w}, RendezvousAndOwner: aioKeys{w}}
+		w.DI.BeforeVoucherPersist = aio.Extend
+		w.DI.AfterVoucherPersist = aio.RegisterOwnerAddr
+	}
 	w.TO0 = &fdo.TO0Server{Session: w.RVStore, RVBlobs: w.RVStore, AcceptVoucher: opt.TTLPolicy}
 	w.TO1 = &fdo.TO1Server{Session: w.RVStore, RVBlobs: w.RVStore}
 	if w.Mods == nil {
@@ -364,6 +373,23 @@ func (w *World) buildServers() {
 		h := &fdohttp.Handler{Tokens: w.OwnerStore, DIResponder: w.DI, TO0Responder: w.TO0, TO1Responder: w.TO1, TO2Responder: w.TO2}
 		w.MfgHandler, w.RVHandler, w.OwnerHandler = h, h, h
 	}
+}
+
+// aioKeys adapts the world to the two interfaces of fdo.AllInOne.
+type aioKeys struct{ w *World }
+
+func (a aioKeys) ManufacturerKey(ctx context.Context, t protocol.KeyType, bits int) (crypto.Signer, []*x509.Certificate, error) {
+	return a.w.MfgKeys.OwnerKey(ctx, t, bits)
+}
+func (a aioKeys) OwnerKey(ctx context.Context, t protocol.KeyType, bits int) (crypto.Signer, []*x509.Certificate, error) {
+	return a.w.OwnerKeys.OwnerKey(ctx, t, bits)
+}
+func (a aioKeys) SetRVBlob(ctx context.Context, ov *fdo.Voucher, to1d *cose.Sign1[protocol.To1d, []byte], exp time.Time) error {
+	return a.w.RVStore.SetRVBlob(ctx, ov, to1d, exp)
+}
+func (a aioKeys) OwnerAddrs(context.Context, fdo.Voucher) ([]protocol.RvTO2Addr, time.Duration, error) {
+	dns := "owner.verif"
+	return []protocol.RvTO2Addr{{DNSAddress: &dns, Port: 8043, TransportProtocol: protocol.HTTPTransport}}, 0, nil
 }
 
 // Restart tears down every server-side object and rebuilds it from the database files.
